@@ -123,6 +123,12 @@ func (sh *SignedHeader) ValidateBasic() error {
 		return ErrProposerAddressMismatch
 	}
 
+	// The signer address must be the address of the public key the signature is checked
+	// with, otherwise any key could sign on behalf of the proposer's address.
+	if sh.Signer.PubKey == nil || !bytes.Equal(KeyAddress(sh.Signer.PubKey), sh.Signer.Address) {
+		return ErrProposerAddressMismatch
+	}
+
 	var (
 		bz  []byte
 		err error
